@@ -373,10 +373,25 @@ func (c *xsyncMap) DeleteExpired() {
 	c.items.Range(func(k string, v interface{}) bool {
 		i := v.(item)
 		if i.expiredWithNow(now) {
-			c.items.Delete(k)
-			if ec != nil {
-				evictedItems = append(evictedItems, kv{k, i.v})
-			}
+			// double check or delete
+			c.items.Compute(
+				k,
+				func(value interface{}, loaded bool) (interface{}, bool) {
+					if !loaded {
+						return nil, true
+					}
+					i := value.(item)
+					if !i.expiredWithNow(now) {
+						// k has a new value
+						return i, false
+					}
+					if ec != nil {
+						evictedItems = append(evictedItems, kv{k, i.v})
+					}
+					// delete
+					return nil, true
+				},
+			)
 		}
 		return true
 	})
